@@ -14,6 +14,72 @@ TARGETS = ('--lib',)
 MINE = ('C02.1', 'C02.2', 'C02.3', 'C02.4', 'C02.5', 'C05.4')
 
 
+def drop_rule(f, rep, rid):
+    """An entry leaves the slice cache only (a) handed to the caller, who decides about the write-back, or
+    (b) on a decision that looked at its dirty flag.  A dirty entry that is dropped silently is never written:
+    every later flush_meta() returns Ok without it."""
+    from ..interp import Program, short
+    from ..guard import Deps
+    rep.rule(rid, 'AsyncLruCache removes an entry from the map only when the removed value is handed to the caller or the '
+                  'removal is decided by a test of the entry\'s dirty flag (remove / retain / clear / drain on the entry map)')
+    P = Program(f)
+    REMOVERS = ('HashMap::<K, V, S, A>::remove', 'HashMap::<K, V, S, A>::retain', 'HashMap::<K, V, S, A>::clear',
+                'HashMap::<K, V, S, A>::drain', 'HashMap::<K, V, S, A>::remove_entry', 'HashMap::<K, V, S, A>::extract_if')
+    n = 0
+    for b in f.body_list:
+        if not b.path.startswith('cache::AsyncLruCache') or '::tests::' in b.path or '{closure' in b.path:
+            continue
+        dp = None
+        for bi, t in b.calls():
+            fn = t.get('fn') or ''
+            if not fn.endswith(REMOVERS):
+                continue
+            dp = dp or Deps(P, b)
+            # only the entry map (rmap): the receiver derives from the field / the guard parameter, not from the miss map
+            rd = dp.of_operand(t['args'][0], (bi, 10 ** 6))
+            if any(x[0] == 'field' and x[1] == 'wmap' for x in rd):
+                continue
+            n += 1
+            site = '%s: %s at %s' % (short(b.path), fn.split('::')[-1], b.where(bi))
+            # (a) the removed value reaches the return value
+            ret = set()
+            for rbi in b.reachable():
+                if b.blocks[rbi]['term']['k'] == 'return':
+                    ret |= dp.of_place({'l': 0, 'p': []}, (rbi, 10 ** 6))
+            handed = fn.endswith(('::remove', '::remove_entry', '::drain', '::extract_if')) and any(x[0] == 'fn' and x[1] == fn for x in ret)
+            # (b) a test of is_dirty decides: dominates the removal itself, or every push that feeds the removed keys
+            def dirty_switches():
+                out = []
+                for sbi in b.reachable():
+                    st = b.blocks[sbi]['term']
+                    if st['k'] == 'switch':
+                        d = dp.of_operand(st['d'], (sbi, 10 ** 6))
+                        if any(x[0] == 'fn' and x[1].endswith('::is_dirty') for x in d):
+                            out.append(sbi)
+                return out
+            sw = dirty_switches()
+            decided = any(b.dominates(x, bi) and x != bi for x in sw)
+            if not decided and fn.endswith('::remove'):
+                pushes = [pbi for pbi, pt in b.calls() if (pt.get('fn') or '').endswith('Vec::<T, A>::push')]
+                kd = dp.of_operand(t['args'][1], (bi, 10 ** 6)) if len(t['args']) > 1 else frozenset()
+                if pushes and any(x[0] == 'fn' and x[1].endswith('Vec::<T, A>::push') or x[0] == 'fn' and x[1].endswith('Iterator::next') for x in kd):
+                    decided = all(any(b.dominates(x, pbi) and x != pbi for x in sw) for pbi in pushes)
+            if not decided and fn.endswith('::retain') and len(t['args']) > 1:
+                # the predicate closure looks at the flag
+                cty = f.types[b.locals[t['args'][1]['pl']['l']]] if t['args'][1]['k'] in ('copy', 'move') else None
+                cp = cty.get('p') if cty else None
+                cb = f.body(cp) if cp else None
+                decided = cb is not None and any((ct.get('fn') or '').endswith('::is_dirty') for _x, ct in cb.calls())
+            ok = handed or decided
+            rep.ob(rid, site, ok, 'removed value handed to the caller' if handed else ('decided by a dirty-flag test' if decided else 'neither handed back nor decided by the dirty flag'))
+            if not ok:
+                rep.violation(rid, '%s:%s' % (rid, short(b.path)), b.where(bi),
+                              '%s removes entries from the slice cache without looking at their dirty flag and without handing them '
+                              'to the caller: a slice changed in RAM (e.g. by a write that completed while a flush was waiting for '
+                              'I/O) is dropped, no later flush_meta() writes it and reopen loses the mapping' % short(b.path))
+    rep.floor('removals from the cache entry map', n, 2)
+
+
 def run(ctx, rep):
     rep.explanation = (
         'C02 is decided in part: the dirty-tracking typestate (mutation => dirty mark, eviction victims => flusher, '
@@ -26,6 +92,7 @@ def run(ctx, rep):
     rep.rule('C02.4', 'a function that clears the dirty flag of a slice writes that slice on every path')
     rep.rule('C02.5', 'a cached slice is written only by a function that consulted the new-cluster map in the same activation')
     rep.rule('C05.4', 'a slice write covers the whole slice (start 0, length byte_size)')
+    drop_rule(ctx.lib, rep, 'C02.6')
     d = c04.common(ctx, rep)
     if getattr(d, 'flag_invariant_used', False):
         rep.assume('need_flush read as false while the flush mutex is held means that no metadata is dirty only in RAM '
